@@ -3091,7 +3091,13 @@ impl Translator {
             | ExprKind::Float(..)
             | ExprKind::Bool(..)
             | ExprKind::Str(..) => {}
-            ExprKind::TaskBlock(_) => unimplemented!(),
+            ExprKind::TaskBlock(body) => {
+                // same as a nested lambda without arguments: the values copied into the task
+                // must be available in the enclosing function
+                let (_, nested_captures, _) =
+                    self.calculate_args_captures_locals(&None, &[], body, mono);
+                captures.extend(nested_captures);
+            }
         }
     }
 
